@@ -55,7 +55,7 @@ def s_link(draw, min_slots=2, max_slots=200, kinds=("random", "random", "prbs7",
             "disp": draw(st.floats(-1, 1)), "L": draw(st.floats(1, 100)), "alpha": draw(st.floats(0, 0.3)),
             "pdmode": draw(st.sampled_from(["ase-only", "thermal-only"])), "drive_bias_in_dac": draw(st.booleans()),
             "gvN": draw(st.sampled_from([None, None, "match", "other"])), "drive": draw(st.sampled_from(["unipolar", "negative", "pushpull"])),
-            "chirp": draw(st.one_of(st.just(0.0), st.just(0.0), st.floats(-2, 2)))}      # chirp factor of the Gaussian pulses (DAC's c)      # slot count configured in gv: none / that of the record / another one
+            "chirp": 0.0}      # (chirped Gaussian pulses were tried as an extension of the stated domain and withdrawn: DESIGN 9.3 item 23)      # slot count configured in gv: none / that of the record / another one
 
 
 def run_link(c, slots, carrier=None, pol=None, keep=None, chirp_ok=False):
@@ -121,7 +121,8 @@ def eye_data(e, thr):
     d01 = float(e.mu1 - e.mu0)
     if not d01 > 0:
         return {"eye_nan": True, "s_min_rel": None, "thr_rel": None}
-    return {"eye_nan": False, "s_min_rel": float(min(e.s0, e.s1) / d01), "thr_rel": float((thr - e.mu0) / d01)}
+    return {"eye_nan": False, "s_min_rel": float(min(e.s0, e.s1) / d01), "thr_rel": float((thr - e.mu0) / d01),
+            "s_ratio": float(min(e.s0, e.s1) / max(e.s0, e.s1)) if max(e.s0, e.s1) > 0 else 0.0}
 
 
 def transitions(b):
@@ -253,7 +254,10 @@ def classify(part, case, v):
     exists. A failure is attributed to F03a only when the eye statistics behind the failing decision are degenerate in exactly this way."""
     if (part == "ook_dsp" and v.tag == "ook.DSP!=transmitted") or (part == "ppm_dsp" and v.tag == "ppm.DSP!=transmitted" and case.get("decision") == "hard"):
         d = v.data
-        if d and (d.get("eye_nan") or (d.get("s_min_rel") is not None and d["s_min_rel"] < 0.01 and (d["thr_rel"] < 0.1 or d["thr_rel"] > 0.9))):
+        # degenerate: one sigma estimate is (almost) nothing - below 1 % of the level distance, or below 1/20 of the other level's sigma -
+        # and the threshold derived from it hugs that level (within 10 % of the level distance)
+        if d and (d.get("eye_nan") or (d.get("s_min_rel") is not None and (d["s_min_rel"] < 0.01 or d.get("s_ratio", 1.0) < 0.05)
+                                       and (d["thr_rel"] < 0.1 or d["thr_rel"] > 0.9))):
             return "F03a"
     return None
 
